@@ -9,7 +9,7 @@
    numbers = JSON" and "every format is written for every analysis result". *)
 From Coq Require Import ZArith QArith List Bool Permutation Sorted.
 From PV Require Import Gen.ReportConst Gen.CheckConst Score.ScoreQ Report.Summary Report.Filters
-  Report.SummaryProofs Report.FiltersProofs Report.UnifiedProofs Tie.ReportTie.
+  Report.SummaryProofs Report.FiltersProofs Report.UnifiedProofs Tie.ReportTie Report.Formats Report.FormatsProofs.
 Import ListNotations.
 Open Scope Z_scope.
 
@@ -142,6 +142,28 @@ Theorem C16_unified_summary_is_projection : forall reasons sel r,
   u_avg_lcom e = sel_if (sel_lcom sel) (mean (i_lcom r)) 0%Q.
 Proof. exact unified_projection. Qed.
 
+(* ---- the output format flags of `pyscn analyze` (Report/Formats.v; was finding C16-G1: two format flags gave a warning,
+   no report and exit status 0).  The model of determineOutputFormat agrees with the function run on all sixteen settings *)
+Theorem C16_format_flags_table : format_table_agrees = true.
+Proof. exact format_table_agrees_ok. Qed.
+(* two or more format flags: exit status 1, before any analysis, nothing written *)
+Theorem C16_conflicting_format_flags_rejected : forall f e, (2 <= format_count f)%nat ->
+  run_analyze f e = Build_outcome true false None.
+Proof. exact conflicting_flags_rejected. Qed.
+(* at most one: the analyses run and one report is written, in that format (HTML without a flag) *)
+Theorem C16_single_format_written : forall f e, (format_count f <= 1)%nat ->
+  exists x, run_analyze f e = Build_outcome e true (Some x) /\
+            ((format_count f = 0%nat /\ x = FHtml) \/
+             (format_count f = 1%nat /\ match x with FHtml => ff_html f | FJson => ff_json f | FCsv => ff_csv f | FYaml => ff_yaml f end = true)).
+Proof.
+  exact (fun f e H => match single_format_written f e H with
+                      | ex_intro _ x (conj R D) => ex_intro _ x (conj R (determine_some f x D)) end).
+Qed.
+(* a run that exits 0 has written its report *)
+Theorem C16_no_success_without_report : forall f,
+  oc_fails (run_analyze f false) = false -> oc_written (run_analyze f false) <> None.
+Proof. exact no_silent_success. Qed.
+
 (* the hypotheses are satisfiable: a report with items in every section *)
 Example C16_example :
   let f := mkfn_example in
@@ -168,3 +190,7 @@ Print Assumptions C16_filters_sound_complete_lcom.
 Print Assumptions C16_filters_sound_complete_clones.
 Print Assumptions C16_filters_sound_complete_severity.
 Print Assumptions C16_unified_summary_is_projection.
+Print Assumptions C16_format_flags_table.
+Print Assumptions C16_conflicting_format_flags_rejected.
+Print Assumptions C16_single_format_written.
+Print Assumptions C16_no_success_without_report.
